@@ -537,6 +537,19 @@ impl Scenario for EmfWriterFaults {
                 r.violation = Some(v);
                 return false;
             }
+            // "... for that entry only": after a failed call the same formatter must produce the
+            // exact records for the next entry
+            if res.is_err() {
+                let mut pw = FaultyWriter::perfect();
+                let again = fmt_once(&mut f, sampled, &entry, &mut pw);
+                if again.is_err() || pw.received != expect {
+                    r.violation = Some(Violation::new(
+                        "io_error_affects_next_entry",
+                        format!("{what}: the call failed with {}; the next entry on the same formatter then gave {} / {} bytes instead of the expected {} bytes", result_class(&res), result_class(&again), pw.received.len(), expect.len()),
+                    ));
+                    return false;
+                }
+            }
             // specific expectations
             if w.fired.contains_key("writer_zero") {
                 match &res {
